@@ -153,9 +153,15 @@ def canonical_tie_order(header, rows):
     return out
 
 
-def competing_ties(tables, scores):
-    """True if two rows with exactly equal reference scores share a spectrum or a rollup entity
-    (then the winner is arbitrary and the scenario is uninformative)."""
+def competing_ties(tables, scores, fasta_entries=None):
+    """True if two rows with exactly equal reference scores share a spectrum, a rollup entity or - when the protein
+    level is computed - a protein (then the winner is arbitrary and the scenario is uninformative)."""
+    pep2prot = {}
+    for name, seq in fasta_entries or []:
+        base = name[len("decoy_"):] if name.startswith("decoy_") else name
+        for tok in seq.split("K"):
+            if tok:
+                pep2prot.setdefault(tok + "K", set()).add(base)
     for t, s in zip(tables, scores):
         groups = {}
         for ri, v in enumerate(s):
@@ -173,6 +179,14 @@ def competing_ties(tables, scores):
                     if k in seen:
                         return True
                     seen.add(k)
+            if pep2prot:
+                seen = set()
+                pi = cols.index("Peptide")
+                for ri in rows:
+                    prots = pep2prot.get(t["rows"][ri][pi], set())
+                    if prots & seen:
+                        return True
+                    seen |= prots
     return False
 
 
@@ -392,7 +406,8 @@ def run_scenario(scn, workdir):
         out.update(status="uninformative", message="reference scores are not finite (a fold whose lowest accepted target "
                    "equals the decoy median: outside the calibration statement's quantifier)")
         return out
-    if competing_ties(tables, ref.scores):
+    fasta_entries = P.fasta_for_tables(tables, scn["fasta_seed"]) if scn.get("fasta_seed") is not None else None
+    if competing_ties(tables, ref.scores, fasta_entries):
         out.update(status="uninformative", message="reference scores tie exactly between competing rows")
         return out
     # (ii) parsed
